@@ -22,6 +22,8 @@ func runC44(c *an.Ctx) {
 	if !controlGuard(c) {
 		return
 	}
+	// the slices an iterator hands out are valid only until it is advanced (seed C44c)
+	iteratorValuesNotUsedAfterAdvance(c, "smartcontract/storage", "smartcontract/service/neovm", "smartcontract/service/native/utils", "smartcontract/service/native/governance")
 	getContract := mustObj(c, "smartcontract/storage.(*CacheDB).GetContract")
 	putContract := mustObj(c, "smartcontract/storage.(*CacheDB).PutContract")
 	if getContract == nil || putContract == nil {
